@@ -29,6 +29,7 @@ func checkC17(c *Check, a *Anchors) {
 	c17StdioIdentity(c, a)
 	c17WriteReportsFullCount(c, a)
 	c17PrefixFallbackAfterRender(c, a)
+	c17ExplicitStyleWins(c, a)
 }
 
 // writesTo: the ssa call writes to the value loaded from field `field` of type typ (as receiver of Write or as first argument of a writer helper).
@@ -583,7 +584,6 @@ func closerBodies(c *Check, wrap *FuncBody) []closerBody {
 	return out
 }
 
-
 // handsStreamOn: the call passes the stream to a function of internal/output (which is judged on its own, with the
 // parameter it receives the stream in) rather than writing to it.
 func handsStreamOn(c *Check, info *types.Info, call *ast.CallExpr) bool {
@@ -715,4 +715,77 @@ func c17PrefixFallbackAfterRender(c *Check, a *Anchors) {
 	})
 	c.Decide(found, "prefix-fallback-after-render", "fallback@"+fnDisplay(fb), fb.Decl.Pos(), "an empty rendered prefix becomes the task name",
 		"the task compiler no longer replaces an empty RENDERED prefix by the task's name: a task whose `prefix:` template renders empty (a variable that one caller does not set) writes lines with an empty prefix in the prefixed output style")
+}
+
+// c17ExplicitStyleWins: an output style requested for the invocation is used as requested.
+func c17ExplicitStyleWins(c *Check, a *Anchors) {
+	c.Rule("explicit-style-wins", "in package task every assignment that copies (part of) the Taskfile's `output:` into Executor.OutputStyle is made only on the false edge of OutputStyle.IsSet(): a style given for the invocation (--output group --output-group-error-only, WithOutputStyle) is taken whole — copying the Taskfile's group options over it replaces the requested error_only, so the block of a successful command is printed although error_only was asked for (or the reverse)")
+	n := 0
+	ord := map[string]int{}
+	for _, fb := range c.P.BodiesIn(PkgTask) {
+		if fb.Decl == nil {
+			continue
+		}
+		info := fb.Info()
+		touchesStyle := func(e ast.Expr) bool {
+			found := false
+			ast.Inspect(e, func(m ast.Node) bool {
+				if sel, ok := m.(*ast.SelectorExpr); ok && fieldSel(info, sel, PkgTask, "Executor", "OutputStyle") {
+					found = true
+				}
+				return true
+			})
+			return found
+		}
+		fromTaskfile := func(e ast.Expr) bool {
+			found := false
+			ast.Inspect(e, func(m ast.Node) bool {
+				if sel, ok := m.(*ast.SelectorExpr); ok && fieldSel(info, sel, PkgAst, "Taskfile", "Output") {
+					found = true
+				}
+				return true
+			})
+			return found
+		}
+		var sites []*ast.AssignStmt
+		inspectBody(fb.Body, func(nd ast.Node) bool {
+			if as, ok := nd.(*ast.AssignStmt); ok && len(as.Lhs) == len(as.Rhs) {
+				for i := range as.Lhs {
+					if touchesStyle(as.Lhs[i]) && fromTaskfile(as.Rhs[i]) {
+						sites = append(sites, as)
+					}
+				}
+			}
+			return true
+		})
+		if len(sites) == 0 {
+			continue
+		}
+		c.Fn(fb)
+		at := map[*ast.AssignStmt]Facts{}
+		f := NewFlow(c.P, fb, func(call *ast.CallExpr, obj types.Object) string {
+			if fn, ok := obj.(*types.Func); ok && fn.Name() == "IsSet" {
+				if sel, ok := ast.Unparen(call.Fun).(*ast.SelectorExpr); ok && fieldSel(info, sel.X, PkgTask, "Executor", "OutputStyle") {
+					return "style-set"
+				}
+			}
+			return ""
+		})
+		f.NoInline = true
+		f.AssignEffect = func(s *ast.AssignStmt, st Facts) {
+			for _, site := range sites {
+				if site == s {
+					at[s] = st.clone()
+				}
+			}
+		}
+		f.Run()
+		for _, site := range sites {
+			n++
+			st := at[site]
+			c.Decide(st != nil && st.Has("false:style-set"), "explicit-style-wins", ordinal(ord, "taskfile-style-copied@"+fnDisplay(fb)), site.Pos(), "only when no style was requested for the invocation",
+				"`"+exprStr(site.Lhs[0])+" = "+exprStr(site.Rhs[0])+"` is reached although Executor.OutputStyle.IsSet() was not tested false on the path: (part of) an explicitly requested output style is replaced by the Taskfile's — error_only included; must-facts: "+st.String())
+		}
+	}
+	c.Floor("explicit-style-wins", n, 1)
 }
